@@ -1869,6 +1869,19 @@ def pattern_methods(rng):
     }
     for name, body in par.items():
         add("PD", "I", P2, body, "param:" + name, name)
+    # a loop is the very first statement of the method (its counter is a parameter): the entry block is the loop head itself (top-tested,
+    # do-while) or holds nothing but the `goto` to the bottom test
+    lbody = [("assign", "p1", ("bin", "add", "I", p1, p0, "3reg")), ("assign", "p0", ("bin", "shr", "I", p0, 1, "lit8"))]
+    lcond = ("cmp", "gt", "I", p0, _c(0), True)
+    for style in ("top", "bottom"):
+        for latch in (False, True):
+            if style == "top" and latch:
+                continue
+            add("PD", "I", P2, [("while", lcond, lbody, style), ("return", p1)], "first:loop-is-first-statement", "while-%s%s" % (style, "-exit-goto" if latch else ""), latch=latch)
+            add("PD", "I", P2, [("while", lcond, [("if", c2, [("assign", "p1", ("bin", "xor", "I", p1, 5, "lit8"))], [])] + lbody, style), ("return", p1)],
+                "first:loop-is-first-statement", "while-%s-if-in-body%s" % (style, "-exit-goto" if latch else ""), latch=latch)
+    for latch in (False, True):
+        add("PD", "I", P2, [("dowhile", lbody, lcond), ("return", p1)], "first:loop-is-first-statement", "do-while%s" % ("-exit-goto" if latch else ""), latch=latch)
     # ---- PC/latch: bottom-tested loops whose back edge is `if !cond -> exit; goto head`
     for a in ("do-while", "while-bottom"):
         for extra, tag in (([], "single"), ([early], "single+early-return")):
